@@ -35,8 +35,12 @@ def class_id(e):
     return 12      # an exception no scripted attempt can produce (AttributeError, exhausted transport script, ...)
 
 
+JSTATES = []      # the scripted jitter sources of the strategy objects of the current observation
+
+
 def backoff_obj(b, jitter_vals):
     state = {'k': 0}
+    JSTATES.append(state)
 
     def jitter():
         k = state['k']
@@ -119,9 +123,26 @@ def model_attempt(att, req_kind):
     return ('exc', 6)
 
 
+def warm_attempts(case):
+    """(how many failing attempts the warm-up request goes through, the listed outcome it fails with)."""
+    st = case['per'] if isinstance(case['per'], dict) else (case['client'] if case['per'] == 'unset' else None)
+    if not isinstance(st, dict):
+        return 0, None
+    if st.get('codes'):
+        fail = ['code', sorted(st['codes'])[0]]
+    elif st.get('excs'):
+        fail = ['exc', sorted(st['excs'])[0]]
+    else:
+        return 0, None
+    if case['req'] == 'notification':
+        return 0, None
+    return min(int(st['backoff'][1]), 4), fail
+
+
 def observe(case):
     is_async = case['async']
     req_kind = case['req']
+    del JSTATES[:]
     script = ce.Script([step_of(a, req_kind, k) for k, a in enumerate(case['script'])])
     tlog = []
     tracers = [RecTracer(i, tlog) for i in range(case['tracers'])]
@@ -152,6 +173,17 @@ def observe(case):
         req = pjrpc.Request('m', [1], id=None if req_kind == 'notification' else 1)
         return cl.send(req, **kwargs)
     with mock.patch.object(time, 'sleep', rec_sleep), mock.patch.object(asyncio, 'sleep', rec_asleep):
+        if case.get('warm'):
+            # an earlier request on the SAME client and strategy objects that used up its retries: what the observed request does
+            # must not depend on it (strategies and backoffs carry no state from one request to the next)
+            real_steps = script.steps
+            n, fail = warm_attempts(case)
+            script.steps = [step_of(fail, req_kind, 900 + k) for k in range(n)] + [step_of(['ok'], req_kind, 999)]
+            ce.run(is_async, go)
+            script.steps, script.sent = real_steps, []
+            del tlog[:], sleeps[:]
+            for st in JSTATES:
+                st['k'] = 0
         o = ce.run(is_async, go)
     # final outcome -> (akind, tag)
     if o[0] == 'ok':
